@@ -88,7 +88,7 @@ def main(tier):
         for k, v in st.items():
             tot[k] = max(tot.get(k, 0.0), v) if k.startswith("worst") else tot.get(k, 0) + v
         for key, what, extra in viols:
-            rp = {"part": "interpolation", "case": s["line"], "summary": ol.spec_summary(s)}
+            rp = ol.replay_record(s, part="interpolation")
             rep.violation(key, what + "  [case %s]" % json.dumps(ol.spec_summary(s)), rp)
     # part 2: start-up over object histories (release build for all; sanitizer build for a slice)
     sc = startup_cases(tier)
